@@ -7,6 +7,7 @@ def run(ctx):
     from props import gen_unbounded
     gen_unbounded.run_reroute(ctx, ('reroute_multiclient_out_events',))   # unbounded part: out-events to the claim holder
     gen_unbounded.run_claim_release(ctx)                                  # unbounded part: InitializePort<Port>()
+    gen_unbounded.run_multiclient_cfg(ctx)   # the claim / release events are the configured ones, whatever they are called
     ctx.interp.model_strings_break_free = True
     only = os.environ.get('PYVC_SHAPES')
     gen_props.run_property(ctx, 'C04', only.split(',') if only else None)
